@@ -85,7 +85,7 @@ theorem C17_quiet_core (h : Host) (hw : WF h) (hc : Closed h) (hts : ThreadsStop
     · exact hg _
   have hz : (zcClose h).2 = [] := by rw [zcClose_of_done h hd]
   cases b with
-  | recv s q d u da => simp [step, ht] at hs
+  | recv s q d u da aa => simp [step, ht] at hs
   | apiBrowse tr rp th zt => simp [Block.isBrowse] at hnb
   | cleanupFire e => simp [step, hcl] at hs
   | startUp => simp [step, hd] at hs
